@@ -1,6 +1,6 @@
 """Cold-start concurrency probe (run as a script in a FRESH interpreter by pmv/replay.py).
 
-usage: python -m pmv.coldstart <calls.pkl> <focus index> <nthreads> [strict|ambient]
+usage: python -m pmv.coldstart <calls.pkl> <focus index> <nthreads> [strict|ambient|closed]
 
 calls.pkl holds [(module, attribute, args, kwargs, repr of the result when called alone)].  The library is imported, N
 threads are released on a barrier and make their very first calls at the same moment - first the recorded calls of one
@@ -36,6 +36,16 @@ def main():
         np.set_printoptions(**AMBIENT)
         decimal.DefaultContext.prec = 5
         decimal.getcontext().prec = 5
+    out_fd = None
+    if len(sys.argv) > 4 and sys.argv[4] == "closed":
+        # a detached worker: its standard streams are closed BEFORE the library is imported and stay closed (a one-time notice
+        # printed at first use of some path fails there every time); the verdict goes out through a duplicate of fd 1
+        import io
+        import os
+        out_fd = os.dup(1)
+        cs_ = io.StringIO()
+        cs_.close()
+        sys.stdout = sys.stderr = cs_
     raw = pickle.load(open(path, "rb"))
     calls = []
     for mod, attr, a, k, want in raw:
@@ -43,8 +53,27 @@ def main():
             calls.append((getattr(importlib.import_module(mod), attr), a, k, want, mod + "." + attr))
         except Exception:
             pass
+    if out_fd is not None:
+        # (the two aliases documented to emit a DeprecationWarning, and tell(), have something to write: not asked here)
+        calls = [c for c in calls if c[4].split(".")[-1] not in ("alt40mcp", "alt40fms", "tell")]
+    if focus % 2 == 1:
+        # before anything else the host program uses the exported conversion helpers on its own short strings (an address
+        # nibble, a flag field): all-0/1 digit strings are valid hex AND valid binary - a memo shared by hex2int and bin2int
+        # that is keyed by the string alone is poisoned from here on
+        try:
+            import pyModeS
+            for s_ in ("100000", "000010", "000001", "110000", "101", "001", "11", "10", "1", "0", "10000", "0101", "100", "010000", "00100000", "11111111"):
+                pyModeS.common.hex2int(s_)
+            for s_ in ("0001", "0010", "1000", "00010000"):
+                pyModeS.common.bin2hex(s_)
+        except Exception:
+            pass
     if not calls:
-        print("[]")
+        if out_fd is not None:
+            import os
+            os.write(out_fd, b"[]\n")
+        else:
+            print("[]")
         return
     names = sorted(set(c[4] for c in calls))
     fname = names[focus % len(names)]
@@ -78,7 +107,11 @@ def main():
         th.start()
     for th in ths:
         th.join(60)
-    print(json.dumps(bad[:5]))
+    if out_fd is not None:
+        import os
+        os.write(out_fd, (json.dumps(bad[:5]) + "\n").encode())
+    else:
+        print(json.dumps(bad[:5]))
 
 
 if __name__ == "__main__":
